@@ -31,7 +31,7 @@ def gen_cases(tier, seed):
                       "page_version": [1, 1, 2, [1, 2]][int(rng.integers(0, 4))], "use_dict": bool(rng.integers(0, 2)),
                       "_": 0,
                       "codec": ["UNCOMPRESSED", "SNAPPY", "GZIP", "ZSTD"][int(rng.integers(0, 4))],
-                      "long_rows": bool(i % 7 == 0), "stats_nulls": bool(i % 4 == 1)})
+                      "long_rows": bool(i % 7 == 0), "stats_nulls": bool(i % 4 == 1), "colname": [None, "key", "value"][(i // 3) % 3] if i % 5 == 2 else None})
     # dictionary fallback inside a nested chunk: the first page(s) dictionary-encoded, the rest PLAIN (what parquet-mr / parquet-cpp do
     # once a dictionary grows too large); v1 pages, rows may continue across the change of encoding
     for i in range(90 if tier == "quick" else 1500):
@@ -224,6 +224,10 @@ def run_case(case):
     try:
         subs = [dict(c, row_groups=case["row_groups"], codec=case["codec"]) for c in case["cols"]] if case.get("cols") else [case]
         names = ["n"] if len(subs) == 1 else ["n%d" % j for j in range(len(subs))]
+        if len(subs) == 1 and case.get("colname"):
+            # a top-level column called like the inner fields of a MAP ("key", "value")
+            names = [case["colname"]]
+            counters["columns_named_like_map_fields"] = 1
         cols_spec, rows_by = [], []
         for sub, name in zip(subs, names):
             spec1, rows1 = make(sub)
@@ -393,4 +397,4 @@ def _feat(case):
 
 def required(tier):
     return {"rows_compared": 3000, "assemble_calls_checked": 500, "multi_nested_column_files": 20, "nested_dictionary_fallback_files": 40, "two_file_datasets_with_shifted_chunk_positions": 20, "files_with_other_group_names": 30, "files_with_null_counts_on_nested_chunks": 60,
-            "files_of_only_empty_or_missing_rows_with_null_counts": 8}
+            "files_of_only_empty_or_missing_rows_with_null_counts": 8, "columns_named_like_map_fields": 20}
